@@ -320,7 +320,7 @@ decimals = st.one_of(
     st.integers(-1000, 1000),
 )
 _json_leaf = st.one_of(
-    st.none(), st.booleans(), st.integers(INT_MIN, INT_MAX),
+    st.none(), st.booleans(), st.sampled_from([0, False, "", 0.0]), st.integers(INT_MIN, INT_MAX),
     st.floats(allow_nan=False, allow_infinity=False), strings,
 )
 json_any = st.recursive(
@@ -504,8 +504,19 @@ class Gen:
             return self.obj(("lit", locus), depth, "rand", ri)
         raise ValueError(k)
 
+    def key_like(self) -> st.SearchStrategy:
+        """strings that look like protocol keys (hand-written code probes values with `in`)."""
+        ks = getattr(self.o, "_key_like", None)
+        if ks is None:
+            names = sorted({p["name"] for s in self.m.doc["structures"] for p in s["properties"]})
+            ks = names + [f"x-{n}-y" for n in names[::7]] + [n.upper() for n in names[::11]]
+            self.o._key_like = ks
+        return st.sampled_from(ks)
+
     def base(self, name: str) -> TV:
         if name == "string" or name == "RegExp":
+            if self.draw(st.integers(0, 7)) == 0:
+                return P(self.draw(self.key_like()), ("base", name))
             return P(self.draw(strings), ("base", name))
         if name in ("DocumentUri", "URI"):
             return P(self.draw(uris), ("base", name))
